@@ -429,6 +429,44 @@ func runCheck(o *CheckOpts) int {
 	fmt.Printf("property %s tier %s: %d functions, %d obligations, %d discharged, %d known findings, %d violations, %d covers, %.1fs wall, %.1fs solver\n",
 		o.Prop, o.Tier, len(fns), total, discharged, knownCount, violations, covers, wall, solverSeconds)
 
+	var selfRes []selfResult
+	if o.Tier == "thorough" && o.Only == "" && !o.NoEvidence {
+		// exploration with the executable oracles on the tree at hand
+		if oracles := prog.oraclesFor(o.Prop, "*"); len(oracles) > 0 && os.Getenv("GOVC_NO_ORACLE") == "" {
+			for _, f := range oracles {
+				if knownOracle(known, o.Prop, f.Name()) {
+					notes = append(notes, "oracle "+f.Name()+" demonstrates a recorded finding; not run as exploration")
+					continue
+				}
+				hit, why := runOracles(o, prog, []*ssa.Function{f}, 20)
+				if hit != nil {
+					violations++
+					path := filepath.Join(o.Verif, "out", "replay", o.Prop, "oracle-"+f.Name()+".json")
+					os.MkdirAll(filepath.Dir(path), 0o755)
+					rep := map[string]interface{}{"property": o.Prop, "obligation": "oracle:" + f.Name(), "kind": "oracle-exploration", "repo": o.Repo,
+						"counterexample": map[string]string{"oracle": hit.Oracle, "failing_assert": hit.Where, "input": hit.Input, "iteration": hit.Iter},
+						"replay": "oracle " + hit.Oracle + " fails on the real code at " + hit.Where + " for the recorded input", "replay_output": hit.Output, "confirmed_on_real_code": true}
+					b, _ := json.MarshalIndent(rep, "", " ")
+					os.WriteFile(path, b, 0o644)
+					fmt.Printf("VIOLATION property=%s replay=%s obligation=oracle:%s status=oracle-failed\n", o.Prop, path, f.Name())
+				} else {
+					notes = append(notes, "oracle exploration "+f.Name()+": "+why)
+				}
+			}
+		}
+		selfRes = runSelftest(o)
+		for _, r := range selfRes {
+			switch {
+			case r.Caught:
+				fmt.Printf("selftest: caught %s (%s)\n", r.Name, r.Detail)
+			case strings.HasPrefix(r.Detail, "not applicable") || strings.HasPrefix(r.Detail, "mutant does not build"):
+				fmt.Printf("selftest: skipped %s (%s)\n", r.Name, r.Detail)
+			default:
+				fmt.Printf("SELFTEST-MISS property=%s %s survived the quick check\n", o.Prop, r.Name)
+			}
+		}
+	}
+	selftestResults = selfRes
 	if !o.NoEvidence && o.Only == "" {
 		writeEvidence(o, pc, funcsUnder, total, discharged, knownCount, violations, covers, coverFail, perSolver, solverSeconds, samples, assumptions, notes, outside, wall, extraRes)
 	}
@@ -436,6 +474,17 @@ func runCheck(o *CheckOpts) int {
 		return 1
 	}
 	return 0
+}
+
+var selftestResults []selfResult
+
+func knownOracle(k *KnownFile, prop, oracle string) bool {
+	for _, f := range k.Findings {
+		if f.Property == prop && strings.Contains(f.Witness+" "+f.Text, oracle) {
+			return true
+		}
+	}
+	return false
 }
 
 func round3(f float64) float64 { return float64(int(f*1000)) / 1000 }
@@ -483,6 +532,17 @@ func writeEvidence(o *CheckOpts, pc *PropConfig, funcs []string, total, discharg
 		"vacuity_cover_failures":   coverFail,
 		"outside_subset":           outside,
 		"explanation":              pc.Explanation,
+	}
+	if len(selftestResults) > 0 {
+		k := 0
+		for _, r := range selftestResults {
+			if r.Caught {
+				k++
+			}
+		}
+		cov["selftest_mutants"] = len(selftestResults)
+		cov["selftest_caught"] = k
+		cov["selftest"] = selftestResults
 	}
 	if len(extra) > 0 {
 		n := 0
